@@ -102,7 +102,7 @@ def gen_case(rng: random.Random, tier: str) -> dict:
     na = "ignore" if scen == "new_null" else rng.choice(["drop", "drop", "ignore"])
     return {"cols": cols, "formula": f, "output": rng.choice(["pandas", "numpy", "sparse"]), "scen": scen, "target": target,
             "label": nm(target), "change": change, "na": na, "wrapped": wrap.get(target, False), "tdtype": dts.get(target, "num"),
-            "shape": sorted(len(t) for t in terms)}
+            "shape": sorted(len(t) for t in terms), "structured": rng.choice([None, None, None, "second", "first"])}
 
 
 def judge(case) -> Outcome:
@@ -111,13 +111,18 @@ def judge(case) -> Outcome:
 
     out = Outcome()
     scen, target = case["scen"], case["target"]
-    out.sig = (scen, case["tdtype"], case["wrapped"], tuple(case["shape"]), case["output"], case["na"])
+    out.sig = (scen, case["tdtype"], case["wrapped"], tuple(case["shape"]), case["output"], case["na"], case.get("structured"))
     df = make_frame({"cols": case["cols"], "index": None})
     f = case["formula"]
-    tag = f"{f!r} scenario={scen} target={target} dtype={case['tdtype']} out={case['output']} na={case['na']}"
+    tag = f"{f!r} scenario={scen} target={target} dtype={case['tdtype']} out={case['output']} na={case['na']} part={case.get('structured')}"
     with quiet():
         try:
-            mm = model_matrix(f, df, output=case["output"], na_action=case["na"], context={})
+            if case.get("structured"):  # the formula is one part of a multi-part formula whose other part uses the same factors;
+                # its own spec is what gets reused afterwards
+                whole = model_matrix(f"{f} | {f}" if case["structured"] == "second" else f"{f} | x", df, output=case["output"], na_action=case["na"], context={})
+                mm = whole[1] if case["structured"] == "second" else whole[0]
+            else:
+                mm = model_matrix(f, df, output=case["output"], na_action=case["na"], context={})
         except Exception as e:  # noqa: BLE001
             out.fail("c09.fit_raised", f"{tag}: {type(e).__name__}: {str(e)[:200]}")
             return out
